@@ -11,10 +11,12 @@ import (
 	"slices"
 	"sort"
 	"strings"
+	"time"
 
 	"github.com/nspcc-dev/neo-go/pkg/core"
 	"github.com/nspcc-dev/neo-go/pkg/core/block"
 	"github.com/nspcc-dev/neo-go/pkg/core/fee"
+	"github.com/nspcc-dev/neo-go/pkg/core/mempool"
 	"github.com/nspcc-dev/neo-go/pkg/core/transaction"
 	"github.com/nspcc-dev/neo-go/pkg/crypto/hash"
 	"github.com/nspcc-dev/neo-go/pkg/io"
@@ -363,6 +365,11 @@ func (r *run) injectTx(to []int) {
 
 // giveTx serves one transaction the node's service asked for (Config.RequestTx), the way
 // network.Server.txHandlerLoop does: consensus callback first, then the mempool.
+// poolable tells whether the node's ledger would still take the transaction into a fresh pool.
+func (r *run) poolable(nd *node, tx *transaction.Transaction) bool {
+	return nd.bc.PoolTx(tx, mempool.New(1, false, nil)) == nil
+}
+
 func (r *run) giveTx(nd *node, once bool) bool {
 	nd.mu.Lock()
 	req := append([]util.Uint256(nil), nd.requested...)
@@ -389,8 +396,41 @@ func (r *run) giveTx(nd *node, once bool) bool {
 	}
 	r.line(fmt.Sprintf("tx %d", nd.idx))
 	r.o.Count("tx:given")
-	nd.srv.OnTransaction(cp)
-	_ = nd.bc.PoolTx(cp)
+	// a remote peer answers the server's getdata: P2P `tx` message -> handleTxCmd -> txIn ->
+	// txHandlerLoop (consensus callback if the hash is on the server's wish list, then the pool)
+	if err := nd.peer.sendTx(cp); err != nil {
+		if r.machinery == nil {
+			r.machinery = err
+		}
+		return false
+	}
+	// the server's tx handler runs on its own goroutines: wait until the message has been taken
+	// (ping/pong behind it) and the handler is through with it (consensus callback, pool)
+	if err := nd.peer.roundTrip(); err != nil {
+		if r.machinery == nil {
+			r.machinery = err
+		}
+		return false
+	}
+	for i := 0; ; i++ {
+		n := txInFlight(nd.server)
+		if n == 0 {
+			break
+		}
+		if n < 0 { // layout changed: settle for the pool/ledger having it, or a pause
+			if nd.bc.GetMemPool().ContainsKey(h) || i > 40 {
+				break
+			}
+			if _, _, err := nd.bc.GetTransaction(h); err == nil {
+				break
+			}
+		}
+		if i > 100000 {
+			r.machinery = errors.New("the server's transaction handler does not finish")
+			return false
+		}
+		time.Sleep(200 * time.Microsecond)
+	}
 	// the request list shrinks as the server's would not; keep it, dBFT ignores repeats
 	r.settle(nd)
 	r.events++
@@ -466,10 +506,13 @@ func (r *run) adversarial() {
 				r.silent[j] = true
 				r.o.Count("silence")
 			} else if len(r.silent) > 0 {
+				lowest := -1 // not the map's iteration order: schedules must be reproducible
 				for j := range r.silent {
-					delete(r.silent, j)
-					break
+					if lowest < 0 || j < lowest {
+						lowest = j
+					}
 				}
+				delete(r.silent, lowest)
 			}
 		case 5:
 			var to []int
@@ -547,6 +590,21 @@ func (r *run) fair(blocks int) {
 			fires, total = 0, 0
 			// new pending transactions, the same or different ones on different validators; with
 			// tight limits enough of them to exceed a block
+			// sometimes a burst that (almost) only the next primary holds: its proposal then carries
+			// several transactions the backups have to fetch one after another
+			if lo == hi && r.r.Chance(1, 3) {
+				pi := int(hi+1) % r.cl.n
+				for i := 2 + r.r.Intn(2); i > 0; i-- {
+					to := []int{pi}
+					for j := range r.cl.nodes {
+						if j != pi && r.r.Chance(1, 4) {
+							to = append(to, j)
+						}
+					}
+					r.injectTx(to)
+				}
+				r.o.Count("fair:primary-only-burst")
+			}
 			for i := r.r.Intn(3) + 2*b2i(r.tight); i > 0 && lo == hi; i-- {
 				var to []int
 				all := r.r.Chance(2, 3)
